@@ -7,7 +7,7 @@
 
 use crate::common::*;
 use crate::model;
-use crate::{ensure, ensure_eq_bytes};
+use crate::{ensure, ensure_eq_bytes, pick};
 use vp_base::obj::*;
 use vp_base::tape::{self, Tape};
 use vp_base::toy;
@@ -40,7 +40,7 @@ fn no_d_calls(log: &[toy::Ev], ty: &str) -> CheckResult {
 fn block_level(ctx: &Ctx, t: &mut Tape<'_>, r: &mut Report) -> CheckResult {
     let mode = t.pick(&[Mode::Cfb, Mode::Cfb8, Mode::Ofb]);
     let dir = t.pick(&[Direction::Enc, Direction::Dec]);
-    let suite = ctx.pick_suite(t, |_| true);
+    let suite = pick!(ctx, t, r, |_| true);
     let f = suite.block_mode(mode, dir).unwrap();
     let how = ctor_pick(t);
     let key = gen_key(t, suite);
@@ -92,7 +92,7 @@ fn block_level(ctx: &Ctx, t: &mut Tape<'_>, r: &mut Report) -> CheckResult {
 fn async_oneshot(ctx: &Ctx, t: &mut Tape<'_>, r: &mut Report) -> CheckResult {
     let mode = t.pick(&[Mode::Cfb, Mode::Cfb8]);
     let dir = t.pick(&[Direction::Enc, Direction::Dec]);
-    let suite = ctx.pick_suite(t, |_| true);
+    let suite = pick!(ctx, t, r, |_| true);
     let f = suite.block_mode(mode, dir).unwrap();
     let key = gen_key(t, suite);
     let bs = suite.info.bs;
@@ -122,7 +122,7 @@ fn async_oneshot(ctx: &Ctx, t: &mut Tape<'_>, r: &mut Report) -> CheckResult {
 
 fn buffered(ctx: &Ctx, t: &mut Tape<'_>, r: &mut Report) -> CheckResult {
     let dir = t.pick(&[Direction::Enc, Direction::Dec]);
-    let suite = ctx.pick_suite(t, |_| true);
+    let suite = pick!(ctx, t, r, |_| true);
     let f = suite.buf(dir).unwrap();
     let key = gen_key(t, suite);
     let bs = suite.info.bs;
@@ -148,7 +148,7 @@ fn buffered(ctx: &Ctx, t: &mut Tape<'_>, r: &mut Report) -> CheckResult {
 }
 
 fn ofb_stream(ctx: &Ctx, t: &mut Tape<'_>, r: &mut Report) -> CheckResult {
-    let suite = ctx.pick_suite(t, |_| true);
+    let suite = pick!(ctx, t, r, |_| true);
     let f = suite.stream(StreamKind::Ofb).unwrap();
     let key = gen_key(t, suite);
     let bs = suite.info.bs;
@@ -175,7 +175,7 @@ fn ofb_stream(ctx: &Ctx, t: &mut Tape<'_>, r: &mut Report) -> CheckResult {
 }
 
 fn ofb_core(ctx: &Ctx, t: &mut Tape<'_>, r: &mut Report) -> CheckResult {
-    let suite = ctx.pick_suite(t, |_| true);
+    let suite = pick!(ctx, t, r, |_| true);
     let f = suite.stream(StreamKind::Ofb).unwrap();
     let key = gen_key(t, suite);
     let bs = suite.info.bs;
